@@ -128,6 +128,9 @@ pub trait TreeApi: DynTree<<Self as TreeApi>::Item> + Sized + Clone + PartialEq 
     fn b_collect(v: Vec<Self::Item>) -> Self;
     fn b_default() -> Self;
     fn de(b: &[u8]) -> Result<Self, String>;
+    /// bincode's reader-based entry point (a file, a socket, a `BufReader`)
+    fn de_reader(r: &mut dyn std::io::Read) -> Result<Self, String>;
+    fn ser_into(&self, w: &mut dyn std::io::Write) -> Result<(), String>;
     fn into_iter_box(self) -> Box<dyn DEIter<Self::Item>>;
 }
 
@@ -169,6 +172,8 @@ macro_rules! impl_tree {
             fn b_collect(v: Vec<$t>) -> Self { v.into_iter().collect() }
             fn b_default() -> Self { Self::default() }
             fn de(b: &[u8]) -> Result<Self, String> { bincode::deserialize(b).map_err(|e| e.to_string()) }
+            fn de_reader(r: &mut dyn std::io::Read) -> Result<Self, String> { bincode::deserialize_from(r).map_err(|e| e.to_string()) }
+            fn ser_into(&self, w: &mut dyn std::io::Write) -> Result<(), String> { bincode::serialize_into(w, self).map_err(|e| e.to_string()) }
             fn into_iter_box(self) -> Box<dyn DEIter<$t>> { Box::new(self.into_iter()) }
         }
     )* }
